@@ -1,0 +1,83 @@
+//go:build verif
+
+// Contracts checked by /verif/gvc — packet handlers of server/client.go. Comments only.
+
+package server
+
+// ---------------------------------------------------------------------------
+// Abstractions shared by the handlers.
+//
+// client.deliverMessage (a function field set by the server) fans a message out: it may change any broker
+// state except the inbound packet, the client's negotiated options and identity. $delivered counts the calls,
+// $lastMsg / $lastOpts record what was handed over.
+
+//@ ghost field (client).delivered int
+//@ ghost field (client).lastMsg *gmqtt.Message
+//@ ghost field (client).lastOptsTopic string
+
+//@ func field (client).deliverMessage
+//@ params self, srcClientID, msg, options
+//@ requires msg != nil
+//@ modifies heap, ghost(self.$delivered), ghost(self.$lastMsg), ghost(self.$lastOptsTopic)
+//@ preserves all(packets.Publish.*), all(packets.Properties.*), all(ClientOptions.*), all(client.version), all(client.opts), all(client.server), all(client.unackStore), all(client.out), all(client.close), allcells(uint16), all(server.retainedDB), all(Hooks.*)
+//@ ensures self.$delivered == old(self.$delivered) + 1 && self.$lastMsg == msg && self.$lastOptsTopic == options.TopicName
+
+// OnMsgArrived hook: universally quantified plugin code. It may rewrite the request (message pointer, iteration
+// options) and edit messages in place; it must not edit the inbound packet (documented: "immutable. DO NOT EDIT")
+// nor broker-core objects. $arrived counts the invocations; $vErr / $vMsg record its verdict.
+
+//@ ghost field (Hooks).arrived int
+//@ ghost field (Hooks).vErr error
+//@ ghost field (Hooks).vMsg *gmqtt.Message
+
+//@ func field (Hooks).OnMsgArrived
+//@ params self, ctx, cli, req
+//@ requires req != nil
+//@ modifies req.Message, req.IterationOptions.*, all(gmqtt.Message.*), ghost(self.$arrived), ghost(self.$vErr), ghost(self.$vMsg)
+//@ ensures self.$arrived == old(self.$arrived) + 1 && self.$vErr == result && self.$vMsg == req.Message
+
+//@ func converError
+//@ props C01 C04
+//@ ensures (result == nil) == (err == nil)
+//@ ensures err != nil && err.(type *codes.Error) ==> result == err.(*codes.Error)
+//@ ensures err != nil && !err.(type *codes.Error) ==> isfresh(result) && result.Code == 128
+
+//@ func getErrorProperties trusted pure
+
+// ---------------------------------------------------------------------------
+// publishHandler (C01 acknowledgements, C04 QoS 2 de-duplication, C07 retained store, C13 inbound aliases,
+// C14 OnMsgArrived verdict).
+
+//@ spec func aliasPresent(c *client, pub *packets.Publish) bool = c.version == 5 && pub.Properties.TopicAlias != nil
+//@ spec func aliasVal(pub *packets.Publish) uint16 = *pub.Properties.TopicAlias
+//@ spec func hookVeto(c *client) bool = c.server.hooks.OnMsgArrived != nil && (c.server.hooks.$vErr != nil || c.server.hooks.$vMsg == nil)
+
+//@ func (*client).publishHandler
+//@ props C01 C04 C07 C13 C14
+//@ let H = client.server.hooks
+//@ let R = client.server.retainedDB
+//@ let U = client.unackStore
+//@ let hasAlias = client.version == 5 && pub.Properties.TopicAlias != nil
+//@ let alias = *pub.Properties.TopicAlias
+//@ let dup = pub.Qos == 2 && client.unackStore.$has[pub.PacketID]
+//@ requires client != nil && pub != nil && client.opts != nil && client.server != nil && client.unackStore != nil && client.server.retainedDB != nil && client.deliverMessage != nil
+//@ requires pub.Version == client.version && (client.version == 5 ==> pub.Properties != nil) && pub.Qos <= 2
+//@ requires [C13] len(client.aliasMapper) > int(client.opts.ServerTopicAliasMax)
+//@ modifies heap, ghost(client.$delivered), ghost(client.$lastMsg), ghost(client.$lastOptsTopic), ghost(H.$arrived), ghost(H.$vErr), ghost(H.$vMsg), ghost(U.$has), ghost(R.$msg), ghost(R.$ops), ghost(client.$nout), ghost(client.$lastOut)
+//@ ensures [C13] hasAlias && (alias == 0 || alias > old(client.opts.ServerTopicAliasMax)) ==> result != nil && result.Code == 148
+//@ ensures [C13] hasAlias && 1 <= alias && alias <= old(client.opts.ServerTopicAliasMax) && old(len(pub.TopicName)) != 0 ==> result == nil || result.Code != 148
+//@ ensures [C13] hasAlias && 1 <= alias && alias <= old(client.opts.ServerTopicAliasMax) && old(len(pub.TopicName)) == 0 && old(len(client.aliasMapper[int(alias)])) == 0 ==> result != nil && result.Code == 148
+//@ ensures [C14] H.$arrived <= old(H.$arrived) + 1
+//@ ensures [C04] dup ==> client.$delivered == old(client.$delivered)
+//@ ensures [C14] H.$arrived == old(H.$arrived) + 1 && hookVeto(client) ==> client.$delivered == old(client.$delivered)
+//@ ensures [C14] H.$arrived == old(H.$arrived) + 1 && hookVeto(client) ==> R.$ops == old(R.$ops)
+//@ ensures [C14] H.$arrived == old(H.$arrived) + 1 && !hookVeto(client) ==> client.$delivered == old(client.$delivered) + 1 && client.$lastMsg == H.$vMsg
+//@ ensures [C04] result == nil && !dup && old(client.server.hooks.OnMsgArrived) == nil ==> client.$delivered == old(client.$delivered) + 1
+//@ ensures [C01] result == nil && old(pub.Qos) == 0 ==> client.$nout == old(client.$nout)
+//@ ensures [C01] result == nil && old(pub.Qos) == 1 ==> client.$nout == old(client.$nout) || (client.$nout == old(client.$nout) + 1 && client.$lastOut.(type *packets.Puback) && client.$lastOut.(*packets.Puback).PacketID == old(pub.PacketID))
+//@ ensures [C04] result == nil && old(pub.Qos) == 2 ==> client.$nout == old(client.$nout) || (client.$nout == old(client.$nout) + 1 && client.$lastOut.(type *packets.Pubrec) && client.$lastOut.(*packets.Pubrec).PacketID == old(pub.PacketID))
+//@ ensures [C04] result == nil && old(pub.Qos) == 2 && client.$nout == old(client.$nout) + 1 && client.$lastOut.(*packets.Pubrec).Code < 128 ==> U.$has[old(pub.PacketID)]
+//@ ensures [C04] result == nil && old(pub.Qos) == 2 && client.$nout == old(client.$nout) + 1 && client.$lastOut.(*packets.Pubrec).Code >= 128 ==> !U.$has[old(pub.PacketID)]
+//@ ensures [C07] result == nil && !old(pub.Retain) ==> R.$ops == old(R.$ops)
+
+//@ func defaultIterateOptions inline
